@@ -847,6 +847,14 @@ impl Check for LspCheck {
                     let acts = vec![new(inc - 1, true, j % 2 == 0), new(inc, false, true), new(inc - 1, true, false), new(inc, inc < 2, false), new(inc - 1, true, true)];
                     ctx.feature("directed_unsaved_sessions");
                     run_session(mode, docs, &acts, true, ctx, false, &[inc]);
+                    // retarget: the root stays the root and one edit swaps its include for another one, so a faulty
+                    // file leaves the workspace while another file enters it (same number of files before and after)
+                    let base = |i: usize| docs[i].rsplit('/').next().unwrap().to_string();
+                    let swap = Action { fixed_text: Some(format!("// retargeted\ninclude \"{}\"\nclass K_0_ed_r{} {{ int f = 1; }}\n", base(2), unit)), ..new(0, false, false) };
+                    let back = Action { fixed_text: Some(format!("include \"{}\"\nclass K_0_ed_s{} {{ int f = 1; }}\n", base(1), unit)), ..new(0, false, false) };
+                    let acts = vec![new(1, false, true), new(2, false, j % 2 == 0), new(0, true, false), swap.clone(), back, swap];
+                    ctx.feature("directed_retarget_sessions");
+                    run_session(mode, docs, &acts, true, ctx, false, &[]);
                 }
                 // random longer histories over three documents (chain a -> b -> c)
                 let pool3 = action_pool_wide(3);
